@@ -19,6 +19,7 @@ CONSTANTS
   Order <- OrderAsIs
   CheckAccepts = TRUE
   SimCommits = TRUE
+  WithNext = FALSE
   NextTwoLoads = FALSE
 SYMMETRY Sym
 PROPERTY QueriesAreReadOnly
